@@ -65,7 +65,7 @@ def impl_fn(hexrec):
 def correspondence(rep, rng, tier):
     cases = gen_cases(rng, tier)
     run_section(rep, 'kevent', cases,
-                line_fn=lambda c: 'kevent ' + c if c else 'kevent-empty',
+                line_fn=lambda c: 'kevent ' + (c or '-'),
                 impl_fn=impl_fn, oracle_fn=oracle,
                 nontrivial_fn=lambda c, got: len(c) == 128 and got.startswith('ok'),
                 kind_fn=lambda c, got: 'len64' if len(c) == 128 else 'wrong-length',
@@ -80,7 +80,7 @@ def replay(path):
     case = r['replay']['case']
     got = impl_fn(case) if True else None
     res = oracle(case, got)
-    model = core.drive(['kevent ' + case if case else 'kevent-empty'])[0]
+    model = core.drive(['kevent ' + (case or '-')])[0]
     print('impl :', got)
     print('model:', model)
     if res:
